@@ -4,6 +4,7 @@ package cache
 
 import (
 	"fmt"
+	"runtime"
 	"strings"
 	"sync/atomic"
 	"testing"
@@ -702,6 +703,120 @@ func (c *c31case) pickDropped() (string, bool) {
 	return c.dropIDs[c.rng.Intn(len(c.dropIDs))], true
 }
 
+// c31guard turns a panic of the code under test on the driver goroutine into a recorded
+// violation (a panic on one of the cache's own goroutines still kills the test binary and
+// is reported by the runner as C31/crash). It must be the first defer of a case so that it
+// also sees a panic raised by the deferred Stop.
+func c31guard(run *verifkit.Run, sig string, witness func() map[string]any) {
+	r := recover()
+	if r == nil {
+		return
+	}
+	buf := make([]byte, 6000)
+	buf = buf[:runtime.Stack(buf, false)]
+	w := map[string]any{}
+	if witness != nil {
+		w = witness()
+	}
+	w["panic"] = fmt.Sprint(r)
+	w["stack"] = string(buf)
+	run.Violation(sig, fmt.Sprintf("the cache panicked on the calling goroutine: %v", r), w)
+}
+
+func c31newCase(run *verifkit.Run, rng *verifkit.Rand, kPer, dPer, workers uint, dupHeavy bool) *c31case {
+	mk := func(per uint) uint { return per*workers - uint(rng.Intn(int(workers))) } // ceil(x/workers) == per
+	cfg := c31cfg(mk(kPer), mk(dPer), workers)
+	clock := clockwork.NewFakeClock()
+	real, err := c31new(cfg, clock)
+	if err != nil {
+		run.Inconclusive("NewCuckooSentCache: " + err.Error())
+		return nil
+	}
+	c := &c31case{run: run, rng: rng, real: real, clock: clock,
+		k: int(cfg.GetKeptSizePerWorker()), kept: map[string]*c31keptRec{}, dropped: map[string]*c31dropRec{}, everDrop: map[string]bool{},
+		capsUsed: map[uint]bool{}, cleanRetention: true, workers: workers, maxCycles: verifkit.Pick(rng, 0, 0, 1, 1, 2),
+		dropCount: map[string]int{}, dupHeavy: dupHeavy}
+	c.curL = c.newGen(cfg.GetDroppedSizePerWorker())
+	c.log(c31step{Op: "New", Note: fmt.Sprintf("kept per worker %d, dropped per worker %d, workers %d", c.k, c.curL.capa, workers)})
+	return c
+}
+
+// c31burst: a burst of dropped decisions takes the filter from at most half full (no second
+// generation yet) to more than 99 % full BETWEEN two Maintain calls; then Maintain twice, then
+// lookups of old and new ids. The unchanged Maintain creates the second generation and
+// rotates to it in the same call, so the ids recorded before are legitimately forgotten
+// (the filter was filled to capacity since) - what must hold is: nothing panics, and
+// dropped decisions recorded AFTER the two Maintain calls are answered dropped.
+func c31burst(run *verifkit.Run, rng *verifkit.Rand, sample bool) {
+	dPer := uint(verifkit.Pick(rng, 32, 64, 128, 128, 500))
+	c := c31newCase(run, rng, uint(verifkit.Pick(rng, 2, 8, 32)), dPer, uint(rng.Range(1, 2)), false)
+	if c == nil {
+		return
+	}
+	defer c31guard(run, "C31/dropped-filter/panic-after-burst", func() map[string]any { return map[string]any{"history_tail": c.hist} })
+	defer c.real.c.Stop()
+	slots := c31slots(c.curL.capa)
+	// phase 1: at most half full, maintained, no second generation
+	pre := rng.Range(0, slots/2-1)
+	for i := 0; i < pre; i++ {
+		id := c.newID("d")
+		if rng.Chance(0.1) {
+			c.recordKept(id)
+		}
+		c.recordDropped(id)
+		if rng.Chance(0.3) {
+			c.maintain()
+		}
+	}
+	c.maintain()
+	if c.futL != nil {
+		return // a fingerprint-heavy start already passed 50 %; not the shape wanted here
+	}
+	old := append([]string(nil), c.dropIDs...)
+	// phase 2: burst past 99 % without Maintain (chunks below the add-queue depth, drained by the driver)
+	passed := false
+	for i := 0; i < 40 && !passed; i++ {
+		count, lf := c.real.fill()
+		if lf > 0.99 {
+			passed = true
+			break
+		}
+		n := slots - int(count) + 1
+		if n > 900 {
+			n = 900
+		}
+		c.fill(n)
+	}
+	if _, lf := c.real.fill(); lf <= 0.99 {
+		run.Count("burst_histories_that_did_not_reach_99pct", 1)
+		return
+	}
+	// phase 3: Maintain twice
+	c.maintain()
+	c.maintain()
+	// phase 4: old ids (unconstrained, counted), new ids (promised)
+	stillDropped := 0
+	for _, id := range old {
+		if rec, _, found := c.real.c.CheckTrace(id); found && !rec.Kept() {
+			stillDropped++
+		}
+	}
+	run.Count("burst_old_ids", int64(len(old)))
+	run.Count("burst_old_ids_still_dropped", int64(stillDropped))
+	fresh := rng.Range(3, 12)
+	for i := 0; i < fresh; i++ {
+		id := c.newID("d")
+		c.recordDropped(id)
+		c.lookup(id, rng.Bool())
+	}
+	c.maintain()
+	c.sweep()
+	run.Nontrivial(fmt.Sprintf("burst cap%d pre%d fresh%d", c.curL.capa, pre*8/slots, fresh))
+	if sample {
+		run.Sample(map[string]any{"list": "burst-maintain", "history_tail": c.hist})
+	}
+}
+
 func c31run(run *verifkit.Run, rng *verifkit.Rand, sample bool) {
 	workers := uint(rng.Range(1, 3))
 	kPer := uint(verifkit.Pick(rng, 1, 2, 3, 5, 8, 16, 32))
@@ -712,21 +827,13 @@ func c31run(run *verifkit.Run, rng *verifkit.Rand, sample bool) {
 		// when they are nearly empty (see notes/C31.md); keep those histories on larger filters
 		dPer = 500
 	}
-	mk := func(per uint) uint { return per*workers - uint(rng.Intn(int(workers))) } // ceil(x/workers) == per
-	cfg := c31cfg(mk(kPer), mk(dPer), workers)
-	clock := clockwork.NewFakeClock()
-	real, err := c31new(cfg, clock)
-	if err != nil {
-		run.Inconclusive("NewCuckooSentCache: " + err.Error())
+	c := c31newCase(run, rng, kPer, dPer, workers, dupHeavy)
+	if c == nil {
 		return
 	}
-	defer real.c.Stop()
-	c := &c31case{run: run, rng: rng, real: real, clock: clock,
-		k: int(cfg.GetKeptSizePerWorker()), kept: map[string]*c31keptRec{}, dropped: map[string]*c31dropRec{}, everDrop: map[string]bool{},
-		capsUsed: map[uint]bool{}, cleanRetention: true, workers: workers, maxCycles: verifkit.Pick(rng, 0, 0, 1, 1, 2),
-		dropCount: map[string]int{}, dupHeavy: dupHeavy}
-	c.curL = c.newGen(cfg.GetDroppedSizePerWorker())
-	c.log(c31step{Op: "New", Note: fmt.Sprintf("kept per worker %d, dropped per worker %d, workers %d", c.k, c.curL.capa, workers)})
+	clock := c.clock
+	defer c31guard(run, "C31/panic/lock-step-history", func() map[string]any { return map[string]any{"history_tail": c.hist} })
+	defer c.real.c.Stop()
 	steps := rng.Range(20, 220)
 	maintainEvery := verifkit.Pick(rng, 1, 3, 10, 1000) // 1000: (almost) never, the filter overfills
 	for st := 0; st < steps; st++ {
@@ -834,4 +941,127 @@ func TestVerif_C31(t *testing.T) {
 	run.Assume("answers are taken after the driver drained the add queue (CuckooTraceChecker.drain); the 100us internal drain goroutine may run concurrently; the internal monitor is parked (SizeCheckInterval 24h) and the driver calls Maintain")
 	run.Assume("'filled to capacity' is read as: entry count of the current filter >= the capacity it was created with (or load factor > 0.99); the filter library places at most 96% of its slots at that capacity, so inserts do not fail before that point")
 	run.Cases("histories", run.N(800, 80000), func(i int, rng *verifkit.Rand) { c31run(run, rng, i < 2) })
+	run.Assume("read-your-writes list: once Record(dropped) has returned, CheckSpan answers dropped without any drain (the unchanged code puts the id into the synchronous recentDroppedIDs set, TTL 3 s on the injected clock, before it queues it for the filter); CheckTrace consults only the filter and is measured, not asserted, in that window")
+	run.Cases("read-your-writes", run.N(150, 15000), func(i int, rng *verifkit.Rand) { c31ryw(run, rng, i < 1) })
+	run.Cases("burst-maintain", run.N(150, 15000), func(i int, rng *verifkit.Rand) { c31burst(run, rng, i < 1) })
+}
+
+// c31ryw: lookups immediately after Record(dropped), with no drain by the driver and no
+// yield in between - on the recording goroutine, or on a second goroutine released by an
+// unbuffered hand-over right after Record returned. Many ids per case, a large filter and
+// few records, so the filter is nowhere near its capacity and the add queue never full
+// (an overflow, measured, would exempt the id). Half of the ids have a kept record first.
+func c31ryw(run *verifkit.Run, rng *verifkit.Rand, sample bool) {
+	clock := clockwork.NewFakeClock()
+	real, err := c31new(c31cfg(uint(rng.Range(8, 64)), uint(verifkit.Pick(rng, 1500, 4000, 20000)), 1), clock)
+	if err != nil {
+		run.Inconclusive("NewCuckooSentCache: " + err.Error())
+		return
+	}
+	defer c31guard(run, "C31/panic/read-your-writes", nil)
+	defer real.c.Stop()
+	n := rng.Range(100, 400)
+	otherGoroutine := rng.Bool()
+	type item struct {
+		id      string
+		hasKept bool
+	}
+	items := make([]item, n)
+	for i := range items {
+		items[i] = item{id: fmt.Sprintf("r%04d-%s", i, rng.Hex(8)), hasKept: rng.Bool()}
+	}
+	type obs struct {
+		answer    string
+		inFilter  bool
+		overflow  bool
+		traceSaid string
+	}
+	res := make([]obs, n)
+	look := func(i int) {
+		id := items[i].id
+		rec, _, found := real.c.CheckSpan(&types.Span{TraceID: id, Event: &types.Event{}})
+		res[i].answer = "unknown"
+		if found && rec != nil {
+			res[i].answer = "dropped"
+			if rec.Kept() {
+				res[i].answer = "kept"
+			}
+		}
+		// measured only: had the id reached the filter by then?
+		res[i].inFilter = real.c.dropped.Check(id)
+	}
+	var handoff chan int
+	done := make(chan struct{})
+	if otherGoroutine {
+		handoff = make(chan int)
+		go func() {
+			defer close(done)
+			for i := range handoff {
+				look(i)
+			}
+		}()
+	}
+	for i, it := range items {
+		if it.hasKept {
+			real.c.Record(&c31trace{id: it.id, rate: 10}, true, "deterministic/always")
+		}
+		before := real.met.addQueueFull.Load()
+		real.c.Record(&c31trace{id: it.id, rate: 1}, false, "")
+		res[i].overflow = real.met.addQueueFull.Load() != before
+		if otherGoroutine {
+			handoff <- i // released right after Record returned; the next Record waits for the lookup's start only
+		} else {
+			look(i)
+		}
+		if rng.Chance(0.05) {
+			clock.Advance(time.Duration(rng.Range(0, 2500)) * time.Millisecond) // stays inside the 3 s TTL of the last record
+		}
+	}
+	if otherGoroutine {
+		close(handoff)
+		select {
+		case <-done:
+		case <-time.After(30 * time.Second):
+			run.Inconclusive("read-your-writes: lookup goroutine did not finish (watchdog)")
+			return
+		}
+	}
+	mode := "same goroutine"
+	if otherGoroutine {
+		mode = "second goroutine released right after Record returned"
+	}
+	early := 0
+	bad := map[string]int{}
+	first := map[string]string{}
+	for i, o := range res {
+		run.Count("ryw_lookups", 1)
+		if !o.inFilter {
+			early++
+		}
+		if o.overflow {
+			run.Count("addqueue_overflows_exempted", 1)
+			continue
+		}
+		if o.answer != "dropped" {
+			sig := "C31/dropped/CheckSpan/not-dropped-immediately-after-record"
+			if items[i].hasKept {
+				sig += "/also-recorded-kept"
+			}
+			bad[sig]++
+			if first[sig] == "" {
+				first[sig] = fmt.Sprintf("%s answered %q (id in the filter right afterwards: %v)", items[i].id, o.answer, o.inFilter)
+			}
+		}
+	}
+	run.Count("ryw_lookups_before_filter_insert", int64(early))
+	for sig, k := range bad {
+		run.Violation(sig, fmt.Sprintf("%d of %d traces looked up by CheckSpan (%s) right after Record(dropped) returned were not answered dropped; first: %s", k, n, mode, first[sig]),
+			map[string]any{"mode": mode, "ids": n, "not_dropped": k, "lookups_that_preceded_the_filter_insert": early, "first": first[sig]})
+	}
+	if early > 0 {
+		run.Nontrivial(fmt.Sprintf("ryw %v n%d early%d", otherGoroutine, n/50, early*10/n))
+	}
+	if sample {
+		run.Sample(map[string]any{"list": "read-your-writes", "mode": mode, "ids": n, "lookups_that_preceded_the_filter_insert": early})
+	}
 }
